@@ -13,8 +13,9 @@ R3  totality: no possible domain error on the declared box (the box and every
 R4  the enclosure of evaluate on the degenerate box {x*} lies within 1e-3 of
     the documented value, for the dimensions the constructor accepts among
     {1,2,3,5,10}.
-R5  branch-and-bound proves f >= f* - 1e-3 (<= for maximised) on the box at
-    n=2 (quick; n in {1,2,3} thorough): a sub-box whose whole enclosure beats
+R5  branch-and-bound (natural extension, centred form with an interval gradient,
+    monotonicity test) proves f >= f* - 1e-3 (<= for maximised) on the box at
+    n=2 (quick; n in {1,2,3,5} thorough): a sub-box whose whole enclosure beats
     the optimum by more than the tolerance is a definite violation (reported
     with its coordinates); boxes undecided within the budget are counted and
     do not alarm.
@@ -28,7 +29,7 @@ from concurrent.futures import ProcessPoolExecutor
 
 from ..astutil import text, access_path, func_params, stmts_of, calls_in
 from ..ivl import I, DomainError
-from ..ivlinterp import Interp, Obj, Ret, Unsupported, as_iv, join, Aff
+from ..ivlinterp import Interp, Obj, Ret, Unsupported, as_iv, join, Aff, D
 from ..loader import where, AnalysisError, Repo
 
 TOL = 1e-3
@@ -105,13 +106,16 @@ class EvalInterp(Interp):
         return super().e_Call(n, env)
 
 
-def abstract_eval(cls, cfg, funcs, box, affine=True):
+def abstract_eval(cls, cfg, funcs, box, affine=True, dual=False):
     """-> (interval of the single cost, interp) ; raises DomainError / Unsupported"""
     fn = cls.methods["evaluate"]
     selfo = Obj(**cfg)
     it = EvalInterp(cls, selfo, funcs)
     boxd = dict(enumerate(box))
-    vec = [Aff.var(i, boxd) if (affine and not box[i].is_point()) else box[i] for i in range(len(box))]
+    if dual:
+        vec = [D.var(i, len(box), box[i]) for i in range(len(box))]
+    else:
+        vec = [Aff.var(i, boxd) if (affine and not box[i].is_point()) else box[i] for i in range(len(box))]
     env = {func_params(fn)[0]: selfo, func_params(fn)[1]: Obj(vector=vec)}
     val = None
     try:
@@ -149,16 +153,65 @@ def bnb(task):
            "min_lower_bound": None, "notes": []}
     heap = []
     cnt = 0
+    use_gradient = True
+
+    def natural(box):
+        val, it = abstract_eval(cls, cfg, funcs, box)
+        return cost_interval(val)
+
+    def decided(iv):
+        if sense > 0:
+            return iv.lo >= thr or iv.hi < thr
+        return iv.hi <= thr or iv.lo > thr
 
     def enclose(box):
-        val, it = abstract_eval(cls, cfg, funcs, box)
-        iv = cost_interval(val)
-        return iv, it
+        """natural extension; if that does not decide the box, the centred (mean-value) form with an interval
+        gradient, and the monotonicity test (a coordinate in which f is strictly monotone on the box is moved
+        to the face where the optimum of f over the box lies: the bound over the face bounds the box)"""
+        iv = natural(box)
+        if decided(iv) or not use_gradient:
+            return iv, box
+        try:
+            val, it = abstract_eval(cls, cfg, funcs, box, dual=True)
+        except (Unsupported, DomainError):
+            return iv, box
+        d = val[0] if isinstance(val, (list, tuple)) and len(val) == 1 else None
+        if not isinstance(d, D):
+            return iv, box
+        # monotonicity
+        nb = list(box)
+        moved = False
+        for i, gi in enumerate(d.g):
+            if box[i].is_point():
+                continue
+            if gi.lo > 0:
+                nb[i] = I(box[i].lo) if sense > 0 else I(box[i].hi)
+                moved = True
+            elif gi.hi < 0:
+                nb[i] = I(box[i].hi) if sense > 0 else I(box[i].lo)
+                moved = True
+        if moved:
+            res["notes"].append("monotone") if len(res["notes"]) < 1 else None
+            iv2, nb2 = enclose(nb)
+            return iv2, nb2
+        # centred form
+        c = [I(b.mid) for b in box]
+        try:
+            fc = natural(c)
+        except (Unsupported, DomainError):
+            return iv, box
+        mv = fc
+        for i, gi in enumerate(d.g):
+            mv = mv + gi * (box[i] - c[i])
+        lo, hi = max(iv.lo, mv.lo), min(iv.hi, mv.hi)
+        if lo <= hi:
+            iv = I(lo, hi)
+        return iv, box
 
     def push(box):
         nonlocal cnt
         try:
-            iv, it = enclose(box)
+            iv, box = enclose(box)
         except DomainError as e:
             w = max(b.width / w0 for b, w0 in zip(box, widths0))
             if w < 1e-6:
@@ -233,7 +286,7 @@ def run(ctx):
                      ("R5", "interval branch-and-bound: no point better than the documented optimum by more than 1e-3")):
         ctx.rule(rid, doc)
     ctx.assume("floating-point evaluation is enclosed by outward-rounded intervals (libm within a few ulps); tolerance 1e-3 absolute")
-    ctx.assume("R5 is decided at n=2 (quick) / n in {1,2,3} (thorough) for dimension-generic functions and at the fixed dimension otherwise; higher dimensions are not decided")
+    ctx.assume("R5 is decided at n=2 (quick) / n in {1,2,3,5} (thorough) for dimension-generic functions and at the fixed dimension otherwise; higher dimensions are not decided")
     repo = ctx.repo
     thorough = ctx.tier == "thorough"
     classes = benchmark_classes(repo)
@@ -315,7 +368,7 @@ def run(ctx):
                 ctx.inconclusive("R4", C, where(mod, cls.methods["evaluate"]), "%s: %s" % (tag, e), key="optimum-value:" + tag)
         # ---- R5 tasks
         if generic:
-            bdims = [d for d in ((1, 2, 3) if thorough else (2,)) if d in cfgs]
+            bdims = [d for d in ((1, 2, 3, 5) if thorough else (2,)) if d in cfgs]
             if not bdims:
                 bdims = [min(cfgs)]
         else:
@@ -327,9 +380,9 @@ def run(ctx):
                 continue
             nn = n if n is not None else len(cfg["parameters"])
             if nn > 3 and not thorough:
-                budget = (400, 1.0)
+                budget = (1500, 3.0)
             else:
-                budget = (40000, 90.0) if thorough else (2500, 2.5)
+                budget = (40000, 120.0) if thorough else (6000, 5.0)
             if thorough:
                 # split the root box into 16 parts so that one function uses all cores
                 parts = [[(float(p["bounds"][0]), float(p["bounds"][1])) for p in cfg["parameters"]]]
